@@ -3658,3 +3658,41 @@ def axis_order(r: R, chk, qual: str, helper_suffix: str = "mul_spline_curve", ru
                    func=qual, construct="pairwise product table transposed")
     chk.floor(rule, f"tables of pairwise point products next to {helper_suffix} in {qual}", n, 1)
     return n
+
+
+# ---------------------------------------------------------------------------------------------------------
+# NP-SCALAR: an element of a numpy array is made a Python number before it becomes a knot / weight of the caller's class
+def np_scalar(r: R, chk, quals: List[str], rule="NP-SCALAR", floor: int = 1):
+    """`Fraction(np.int64(3))` keeps the fixed-width integer as numerator: the first comparison with a float (the knot tolerance)
+    multiplies it by a 53-bit denominator and overflows.  Elements of arrays made by numpy (`np.random.*`, `np.arange`,
+    `np.linspace`, `np.array` of numbers) are converted with int() / float() before `cls(...)` / `Fraction(...)` sees them."""
+    n = 0
+    for q in quals:
+        fi = r.prog.func(q)
+        arrays, elems = set(), set()
+        changed = True
+        while changed:
+            changed = False
+            for a in ast.walk(fi.node):
+                if isinstance(a, ast.Assign) and len(a.targets) == 1 and isinstance(a.targets[0], ast.Name):
+                    v = a.value
+                    if isinstance(v, ast.Call) and seg(v.func).startswith("np.") and not any(k.arg == "dtype" and "object" in seg(k.value) for k in v.keywords):
+                        if a.targets[0].id not in arrays:
+                            arrays.add(a.targets[0].id)
+                            changed = True
+                if isinstance(a, (ast.For, ast.comprehension)) and isinstance(a.iter, ast.Name) and a.iter.id in arrays:
+                    for x in ast.walk(a.target):
+                        if isinstance(x, ast.Name) and x.id not in elems:
+                            elems.add(x.id)
+                            changed = True
+        for c in ast.walk(fi.node):
+            if not (isinstance(c, ast.Call) and isinstance(c.func, ast.Name) and c.func.id in ("cls", "Fraction", "numbtype") and c.args):
+                continue
+            n += 1
+            a0 = c.args[0]
+            raw = (isinstance(a0, ast.Name) and a0.id in elems) or (isinstance(a0, ast.Subscript) and isinstance(a0.value, ast.Name) and a0.value.id in arrays)
+            chk.ob(rule, f"{q}: `{seg(c, 40)}` is not given a numpy scalar", not raw, loc=f"{fi.module}.py:{c.lineno}",
+                   detail="" if not raw else f"{q}: `{seg(c, 40)}` receives an element of a numpy array as it is: with cls = Fraction the fixed-width integer stays inside the Fraction, and the first comparison with a float tolerance overflows (OverflowError) — the generator fails for cls = Fraction on every draw, where exact Fraction knots are promised",
+                   func=q, construct=f"numpy scalar handed to {c.func.id}")
+    chk.floor(rule, "conversions to the caller's number class in the generators", n, floor)
+    return n
